@@ -14,7 +14,7 @@ from ..refcbor import enc, Raw, Tag
 LEVEL = "fault_enumeration"
 RULE = ("seeds: envelopes from G chosen to contain every node type (signed with CWT, encryption info with nested "
         "recipients, text map, dependencies, nested try-each/run-sequence, hierarchical). Fault alphabet, applied "
-        "exhaustively: (1) every node of the seed's tree, through every bstr-wrapped layer, replaced by each of 30 "
+        "exhaustively: (1) every node of the seed's tree, through every bstr-wrapped layer, replaced by each of 49 "
         "representatives of every CBOR major type and of the structures the parser special-cases; (2) every map key "
         "replaced by {unknown uint, negative, text, bytes, array}; (3) every array element / map entry deleted and "
         "duplicated; (4) every truncation b[:i]; (5) every head's length argument replaced by {len+-1, 2^16-1, 2^32-1, "
@@ -123,6 +123,7 @@ REPRESENTATIVES = [enc(x) for x in (0, 23, 24, 2**32, 2**64 - 1, -1, -25, -2**64
                                     [], [0], [[[]]], [b"", {}], {}, {0: 0}, {"a": {}}, None, True, False)] + \
                   [b"\xf7", b"\xf9\x3c\x00", enc(Tag(18, [])), enc(Tag(96, [])), enc(Tag(107, {})), enc(Tag(2, b"\x01")), enc(Tag(24, b"\x00")),
                    enc(Tag(18, [b"", {}, None, b""])), enc([-16, b""])]
+REPRESENTATIVES += [enc(bytes([x])) for x in (0x18, 0x38, 0x58, 0x78, 0x98, 0xB8, 0xD8, 0xF8, 0x5F, 0x9F, 0xBF, 0x1C, 0xFF)]
 KEY_REPLACEMENTS = [enc(x) for x in (99, 2**32, -1, -70000, "k", b"k", [1], None)]
 
 
@@ -331,6 +332,68 @@ def nesting_inputs():
     return out
 
 
+def amplification_inputs():
+    """CBOR value sharing (tags 28/29): tiny inputs that decode to exponentially large or cyclic values."""
+    out = []
+    base = impl.tool_create(gen.minimal())
+    env, raw = impl.envelope_members(base)
+
+    def laughs(depth):
+        items = [enc(Tag(28, [b"x" * 8]))]
+        for i in range(depth):
+            items.append(enc(Tag(28, [Tag(29, i), Tag(29, i)])))
+        return refcbor.head(4, len(items)) + b"".join(items)
+    cyc = bytes.fromhex("d81c81d81d00")         # 28([29(0)]): an array that contains itself
+    for name, payload in [(f"shared-reference expansion depth {d}", laughs(d)) for d in (8, 12, 15, 18)] + [("self-referencing array", cyc)]:
+        man = refcbor.to_py(refcbor.decode(env.get(3).value))
+        out.append((f"{name} as an unknown envelope member", enc(Tag(107, {2: env.get(2).value, 3: env.get(3).value, 99: Raw(payload)}))))
+        out.append((f"{name} as the envelope content", b"\xd8\x6b" + payload))
+        m2 = dict(man)
+        m2[4] = Raw(payload)
+        out.append((f"{name} as suit-reference-uri", enc(Tag(107, {2: env.get(2).value, 3: enc(m2)}))))
+        m3 = dict(man)
+        m3[7] = enc(Raw(refcbor.head(4, 2) + enc(20) + enc({21: Raw(payload)})))
+        out.append((f"{name} as a parameter value", enc(Tag(107, {2: env.get(2).value, 3: enc(m3)}))))
+        out.append((f"{name} as an integrated payload", enc(Tag(107, {2: env.get(2).value, 3: env.get(3).value, "#p": Raw(payload)}))))
+    return out
+
+
+def run_amplification(case, agg):
+    for desc, m in amplification_inputs():
+        if case.get("only") and case["only"] != desc:
+            continue
+        cls, fp, text = parse_outcome(m)
+        if fp:
+            kind = "shared-reference-expansion" if "expansion" in desc else "self-reference"
+            agg.viol(f"{fp}/{kind}", f"{desc} ({len(m)} bytes): {text}", artefacts={"input": m.hex()}, case={"only": desc})
+        else:
+            agg.ok(h8(m), cls, sample={"input": desc, "bytes": len(m), "outcome": cls} if "depth 18 as an unknown" in desc else None)
+
+
+def tiny_cases(tier):
+    out = [{"lo": 0, "hi": 256, "n": 1}]
+    if tier == "thorough":
+        out += [{"lo": a, "hi": a + 16, "n": 2} for a in range(0, 256, 16)]
+    return out
+
+
+def run_tiny(case, agg):
+    """every one-byte input (thorough: every two-byte input) handed to the parser directly."""
+    ok = 0
+    for a in range(case["lo"], case["hi"]):
+        for m in ([bytes([a])] if case["n"] == 1 else [bytes([a, b]) for b in range(256)]):
+            cls, fp, text = parse_outcome(m)
+            if fp:
+                agg.viol(fp, f"whole input {m.hex()}: {text}", case={"lo": a, "hi": a + 1, "n": case["n"]})
+                return
+            ok += 1
+            agg.outcomes[cls] += 1
+    agg.evaluations += ok
+    agg.notes["__disjoint_distinct__"] += ok
+    if case["lo"] == 0:
+        agg.samples.append({"tiny_inputs": f"{case['n']}-byte", "count": ok})
+
+
 def _with_validate(envelope, seq_bytes):
     env, raw = impl.envelope_members(envelope)
     man = refcbor.to_py(refcbor.decode(env.get(3).value))
@@ -386,4 +449,6 @@ def plan(tier):
     return [
         CaseStage("single-faults", lambda: fault_cases(tier), run_faults, chunk=1, rule="six fault classes at every node/byte/head of every seed"),
         CaseStage("nesting", [{}], run_nesting, serial=True, rule="depth families 10..10^4 of six nesting constructs"),
+        CaseStage("value-sharing", [{}], run_amplification, serial=True, rule="CBOR tags 28/29: expansion depth 8..18 and self reference at five positions"),
+        CaseStage("tiny-inputs", lambda: tiny_cases(tier), run_tiny, chunk=1, rule="every 1-byte (thorough: every 2-byte) input"),
     ]
